@@ -255,6 +255,9 @@ def law_bounded(ctx):
     n = rng.randint(1, 200)
     c = rng.choice([rng.uniform(0.5, 2), 1.0, 1 + rng.choice((-1, 1)) * 10 ** rng.uniform(-8, -6), rng.uniform(0.9, 1.1)])
     size = L * 10 ** rng.uniform(-4, 0)
+    if rng.random() < 0.35:
+        # neighbourhood of uniform cells (ratio 1): size = L/n * (1 + delta), |delta| = 1e-6 .. 1e-2
+        size = L / n * (1 + rng.choice((-1, 1)) * 10 ** rng.uniform(-6, -2))
     E = 10 ** rng.uniform(-1.5, 1.5)
     val = {"count": n, "c2c_expansion": c, "start_size": size, "end_size": size * rng.uniform(0.3, 3) if "start_size" in given else size,
            "total_expansion": E}
@@ -262,10 +265,19 @@ def law_bounded(ctx):
     chop = Chop(**kw)
     res, exc = ctx.call(chop.calculate, L)
     if exc is not None:
-        ctx.prove("rejection-is-a-value-or-arithmetic-error", isinstance(exc, (ValueError, ArithmeticError)), exc=repr(exc))
+        ctx.prove("rejection-is-a-value-or-arithmetic-error", isinstance(exc, (ValueError, ArithmeticError))
+                  or (isinstance(exc, RuntimeError) and "converge" in str(exc)), exc=repr(exc))
         return
     count, tot = res
     ctx.prove("count-is-an-integer-at-least-one", isinstance(count, int) and count >= 1)
+    if set(given) == {"c2c_expansion", "total_expansion"}:
+        # cells cannot grow (c > 1) towards a smaller last cell (E < 1) or the other way round
+        if (E - 1) * (c - 1) < -1e-4:
+            # (a single cell is acceptable: its expansion is immaterial)
+            ctx.prove("expansion-and-ratio-on-opposite-sides-of-one-rejected", count == 1, c=c, E=E, count=count)
+        elif count > 2 and abs(c - 1) > 1e-3:
+            lo_, hi_ = sorted((c ** (count - 2), c ** count))
+            ctx.prove("count-realises-the-total-expansion-within-one-cell", lo_ * (1 - 1e-9) <= E <= hi_ * (1 + 1e-9), c=c, E=E, count=count)
     ctx.prove("total-expansion-finite-and-positive", math.isfinite(tot) and tot > 0, tot=tot)
     s1, e1, c1 = realised(L, count, tot)
     tol = 2e-6
@@ -290,6 +302,8 @@ def law_bounded(ctx):
     inv = Chop(**kw)
     inv.invert()
     res2, exc2 = ctx.call(inv.calculate, L)
+    if isinstance(exc2, RuntimeError) and "converge" in str(exc2):
+        return   # A2: convergence of scipy's root finder is assumed, not checked (it gave up loudly)
     ctx.prove("inverted-chop-accepted-too", exc2 is None, exc=repr(exc2), kw=kw, L=L)
     if exc2 is None:
         ctx.prove("inverted-chop-same-count", res2[0] == count, a=res2[0], b=count, kw=kw, L=L)
